@@ -19,7 +19,7 @@ ASSUMPTIONS = ['hardware and network layers are replaced by fakes (fake Crazyrad
                'socket / serial modules); an audit hook turns any real socket.connect into a harness error',
                '"claims a URI" = connect() does not raise WrongUriType']
 REQUIRED = ['mon.parse_uri', 'mon.malformed', 'mon.settings_applied', 'mon.scan_results', 'mon.scheme_dispatch', 'mon.open_link_bad',
-            'mon.serial_dongle_ids']
+            'mon.serial_dongle_ids', 'mon.scans_of_address_zero']
 DESC_TIMEOUT = 900
 RATES = {'250K': 0, '1M': 1, '2M': 2}
 _guard = {'installed': False, 'hits': []}
@@ -41,7 +41,7 @@ def cases(tier, seed):
     n = 24 if tier == 'quick' else 80
     out = [{'part': 'parse', 'seed': seed * 1009 + i, 'n': 1500} for i in range(n)]
     out += [{'part': 'connect', 'seed': seed * 1009 + i, 'n': 10} for i in range(n)]
-    out += [{'part': 'scan', 'seed': seed * 1009 + i, 'n': 2} for i in range(max(2, n // 2))]
+    out += [{'part': 'scan', 'seed': seed * 1009 + i, 'n': 5} for i in range(max(2, n // 2))]
     out += [{'part': 'dispatch', 'seed': seed * 1009 + i} for i in range(max(2, n // 4))]
     out += [{'part': 'openlink', 'seed': seed * 1009 + i} for i in range(max(2, n // 4))]
     return out
@@ -195,8 +195,10 @@ def run_scan(desc, ctx):
     import io
     rnd = random.Random(desc['seed'])
     for it in range(desc['n']):
-        use_addr = rnd.random() < 0.6
-        address = rnd.choice((0xE7E7E7E7E7, 0xE7E7E7E701, rnd.getrandbits(40), 0x0000000001)) if use_addr else None
+        choices = (None, 0xE7E7E7E7E7, 0, 0xE7E7E7E701, 0x0000000001, None, 0xFF00000000, rnd.getrandbits(40), 0x00000000FF, rnd.getrandbits(12))
+        address = choices[(desc['seed'] + it) % len(choices)]
+        if address == 0:
+            ctx.count('mon.scans_of_address_zero')
         a = address if address is not None else 0xE7E7E7E7E7
         addr_t = tuple((a >> (8 * (4 - i))) & 0xFF for i in range(5))
         dev = radiosim.FakeUsbRadio()
